@@ -292,6 +292,7 @@ func (v *Svc) request(ctx context.Context, name string, cond bool, old uint32) (
 	w.S.Log("svc request %s cond=%v old=%d #%d %s", strconv.Quote(name), cond, old, k, out)
 
 	finish := func(sv *api.SecretValue, err error) (*api.SecretValue, error) {
+		w.S.Gate("svc-return " + name)
 		v.mu.Lock()
 		v.inflight[name]--
 		r.End = w.Stamp()
